@@ -113,7 +113,7 @@ def run_check(tier, seed):
     if not ok:
         broken.append({'kind': 'harness-build', 'log': out[-3000:]})
     else:
-        n = 120 if tier == "quick" else 3000
+        n = 40 if tier == "quick" else 1500
         cases, obs, badh = oc.explore(PROP, seed, n, False, bindir, 'c10')
         if badh: broken.append({'kind': 'harness', 'name': 'harness output incomplete or layers not materialised as generated', 'cases': badh[:5]})
         analyse(cases, obs, bindir, 'a', findings, broken, stats)
